@@ -74,13 +74,14 @@ type scrape struct {
 	inv, ret uint64
 	err      error
 	// per instrument label "inst" value -> observed
-	vals   map[string]float64
-	counts map[string]uint64
-	kinds  map[string]string
-	badH   []string
-	bucks  map[string]map[float64]uint64 // histogram: upper bound -> cumulative count
-	target int
-	scopes int
+	vals         map[string]float64
+	counts       map[string]uint64
+	kinds        map[string]string
+	badH         []string
+	bucks        map[string]map[float64]uint64 // histogram: upper bound -> cumulative count
+	target       int
+	scopes       int
+	targetLabels []string
 }
 
 type safeCollector struct {
@@ -116,13 +117,14 @@ func (r wrapRegisterer) MustRegister(cs ...promclient.Collector) {
 func (r wrapRegisterer) Unregister(c promclient.Collector) bool { return false }
 
 type world struct {
-	r       *simdrv.Run
-	sim     *simrt.Sim
-	insts   []*inst
-	meas    []*measOp
-	scrapes []*scrape
-	panics  []string
-	handled []string
+	r                *simdrv.Run
+	sim              *simrt.Sim
+	insts            []*inst
+	meas             []*measOp
+	scrapes          []*scrape
+	panics           []string
+	handled          []string
+	wireInv, wireRet uint64
 }
 
 type planOp struct {
@@ -217,6 +219,11 @@ func (engine) Body(r *simdrv.Run) {
 		popts = append(popts, otelprom.WithResourceAsConstantLabels(attribute.NewAllowKeysFilter("service.name", "deployment")))
 		optDesc = append(optDesc, "resource-as-constant-labels")
 	}
+	lateWire := r.Cfg(4) == 0
+	wireSleep := []time.Duration{0, time.Millisecond}[r.Cfg(2)]
+	if lateWire {
+		optDesc = append(optDesc, fmt.Sprintf("provider-created-late(after %v)", wireSleep))
+	}
 	r.Res.Config["options"] = strings.Join(optDesc, ",")
 	var idesc []string
 	for _, in := range w.insts {
@@ -240,8 +247,29 @@ func (engine) Body(r *simdrv.Run) {
 		sim.Finish()
 		return
 	}
-	mp := sdkmetric.NewMeterProvider(sdkmetric.WithReader(exp),
-		sdkmetric.WithResource(resource.NewSchemaless(attribute.String("service.name", "sim"), attribute.String("deployment", "test"), attribute.String("unrelated", "x"))))
+	// The exporter is handed to a MeterProvider either before anything else happens or, in a quarter of
+	// the runs, by a task of its own while scrapes are already arriving (the /metrics endpoint is up
+	// before the SDK is wired): such scrapes must be empty and must not leave anything behind.
+	var mp *sdkmetric.MeterProvider
+	wire := func() {
+		w.wireInv = sim.Stamp()
+		p := sdkmetric.NewMeterProvider(sdkmetric.WithReader(exp),
+			sdkmetric.WithResource(resource.NewSchemaless(attribute.String("service.name", "sim"), attribute.String("deployment", "test"), attribute.String("unrelated", "x"))))
+		w.wireRet = sim.Stamp()
+		mp = p
+	}
+	if lateWire {
+		sim.Spawn("wirer", func() {
+			if wireSleep > 0 {
+				simrt.Sleep(wireSleep, simdrv.PtSleep)
+			}
+			simrt.Yield(simdrv.PtOp)
+			wire()
+			r.Log("%d wired (invoked %d)", w.wireRet, w.wireInv)
+		})
+	} else {
+		wire()
+	}
 	create := func(in *inst) {
 		m := mp.Meter(fmt.Sprintf("scope%d", in.scope), metric.WithInstrumentationVersion("v1"))
 		var e error
@@ -272,6 +300,9 @@ func (engine) Body(r *simdrv.Run) {
 					simrt.Sleep(op.sleep, simdrv.PtSleep)
 				}
 				simrt.Yield(simdrv.PtOp)
+				for mp == nil {
+					simrt.Sleep(time.Millisecond, simdrv.PtSleep)
+				}
 				in := w.insts[op.inst]
 				if in.created == 0 {
 					in.created = 1 // claimed; creation below
@@ -315,6 +346,14 @@ func (engine) Body(r *simdrv.Run) {
 		for _, mf := range mfs {
 			if mf.GetName() == "target_info" {
 				sc.target += len(mf.Metric)
+				for _, m := range mf.Metric {
+					var ls []string
+					for _, l := range m.Label {
+						ls = append(ls, strings.ReplaceAll(l.GetName(), ".", "_")+"="+l.GetValue()) // name escaping is not this check's business
+					}
+					sort.Strings(ls)
+					sc.targetLabels = append(sc.targetLabels, strings.Join(ls, ","))
+				}
 				continue
 			}
 			if mf.GetName() == "otel_scope_info" {
@@ -430,6 +469,20 @@ func (engine) Body(r *simdrv.Run) {
 			r.Violate(prop, "inconsistent-series", "inconsistent-series", "scrape %d..%d: %s", sc.inv, sc.ret, b)
 		}
 		anyData := len(sc.vals) > 0
+		for _, tl := range sc.targetLabels {
+			if want := "deployment=test,service_name=sim,unrelated=x"; tl != want {
+				r.Violate(prop, "target-info", "target-info/labels", "scrape %d..%d exposes target_info{%s}, the provider's resource is {%s}", sc.inv, sc.ret, tl, want)
+			}
+		}
+		if sc.ret < w.wireInv && (anyData || sc.target != 0 || sc.scopes != 0) {
+			r.Violate(prop, "series-before-registration", "series-before-registration", "scrape %d..%d ended before the exporter was handed to a MeterProvider (at %d) but exposes vals=%v target_info=%d scope_info=%d", sc.inv, sc.ret, w.wireInv, sc.vals, sc.target, sc.scopes)
+		}
+		if lateWire && sc.ret < w.wireInv {
+			r.Fault("scrape-before-provider")
+		}
+		if lateWire && sc.inv < w.wireRet && sc.ret > w.wireInv {
+			r.Fault("scrape-during-provider-creation")
+		}
 		if !noTarget && anyData && sc.target != 1 {
 			r.Violate(prop, "target-info", "target-info", "scrape %d..%d exposes %d target_info series, want 1", sc.inv, sc.ret, sc.target)
 		}
@@ -526,6 +579,16 @@ func (engine) Body(r *simdrv.Run) {
 			}
 		}
 		lastBy[sc.task] = sc
+	}
+	if lateWire {
+		// a scrape that arrives before the exporter has a provider reports exactly this, by design
+		kept := w.handled[:0]
+		for _, h := range w.handled {
+			if !strings.Contains(h, "reader is not registered") {
+				kept = append(kept, h)
+			}
+		}
+		w.handled = kept
 	}
 	if len(w.handled) > 0 {
 		sort.Strings(w.handled)
